@@ -37,6 +37,14 @@ def _canon_term(ip, t):
     return relabel(t, m, ip.symmetric) if m else t
 
 
+def attr_or_none(ip, o, name):
+    """an attribute as the package reads it: plain attribute or property; None when absent"""
+    try:
+        return ip.get_attr(o, name, None)
+    except Raised:
+        return None
+
+
 def run_set(prog, which, keys, preset):
     ip = Interp(prog)
     NAT.install_containers(ip)
@@ -47,24 +55,30 @@ def run_set(prog, which, keys, preset):
     o.origin = 'self'
     ip.declare('v')
     st = {}
+
+    def attr_of(name):
+        try:
+            return ip.get_attr(o, name, None)        # plain attribute or property
+        except Raised:
+            return None
     if which == 'density':
-        vt = o.attrs.get('density')
+        vt = attr_of('density')
         if not (isinstance(vt, Obj) and vt.isa('ValueTable')):
             raise AnalysisError('Density.density is not a ValueTable')
         vt.attrs['_native_elem'] = _elem('rho')
         for nm, sym in (('pair', 'P0'), ('site', 'S0')):
-            ma = o.attrs.get(nm)
+            ma = attr_of(nm)
             if not (isinstance(ma, Obj) and ma.isa('MatrixArray')):
                 raise AnalysisError('Density.%s is not a MatrixArray' % nm)
             ip.declare(sym, 'mat1', symmetric=True)
             ma.attrs['data'] = Arr(N.sym(sym), 'self.%s.data' % nm, ip)
             ma.origin = 'self.' + nm
             st[nm] = ma
-        o.attrs['total'] = Num(ip.declare('T0'))
+        ip.set_attr(o, 'total', Num(ip.declare('T0')), None)
     else:
-        vt = o.attrs.get('diameter')
-        vol = o.attrs.get('volume')
-        sig = o.attrs.get('sigma')
+        vt = attr_of('diameter')
+        vol = attr_of('volume')
+        sig = attr_of('sigma')
         if not (isinstance(vt, Obj) and vt.isa('ValueTable') and isinstance(vol, Obj) and isinstance(sig, Obj)
                 and sig.isa('PairTable')):
             raise AnalysisError('Diameter tables changed kind')
@@ -117,11 +131,11 @@ def rule_density(ctx, rule='R15.f'):
             pr = tuple(sorted(ip.canon_label(x) for x in w['pair']))
             writes.setdefault(nm, []).append((pr, _canon_term(ip, w['term'])))
         # density table itself
-        recs = o.attrs['density'].attrs['_native_store']
+        recs = attr_or_none(ip, o, 'density').attrs['_native_store']
         if not (len(recs) == 1 and recs[0]['label'] == 'a' and isinstance(recs[0]['value'], Num)
                 and recs[0]['value'].t.equals(N.sym('v'))):
             bad.append('world %s: density[t1] is not set to the assigned value' % kind)
-        tot = o.attrs.get('total')
+        tot = attr_or_none(ip, o, 'total')
         tt = _canon_term(ip, tot.t) if isinstance(tot, Num) else None
         if kind == 'unset':
             if writes:
@@ -160,7 +174,7 @@ def rule_density(ctx, rule='R15.f'):
     worlds2 = _worlds(ctx.prog, 'density', ('a', 'b'))
     bad2 = []
     for decisions, ip, o in worlds2:
-        tot = o.attrs.get('total')
+        tot = attr_or_none(ip, o, 'total')
         if not isinstance(tot, Num):
             bad2.append('total is %r' % (tot,))
             continue
@@ -192,9 +206,9 @@ def rule_diameter(ctx, rule='R15.s'):
         unset = ip.__dict__.get('_unset_cache', {}).get(('dia', c2))
         kind = 'same' if c2 == 'a' else ('unset' if unset else 'other')
         kinds[kind] = kinds.get(kind, 0) + 1
-        drec = o.attrs['diameter'].attrs['_native_store']
-        vrec = o.attrs['volume'].attrs['_native_store']
-        srec = o.attrs['sigma'].attrs['_native_store']
+        drec = attr_or_none(ip, o, 'diameter').attrs['_native_store']
+        vrec = attr_or_none(ip, o, 'volume').attrs['_native_store']
+        srec = attr_or_none(ip, o, 'sigma').attrs['_native_store']
         if not (len(drec) == 1 and drec[0]['label'] == 'a' and drec[0]['value'].t.equals(v)):
             bad.append('diameter[t1] is not set to the assigned value')
         if not (len(vrec) == 1 and vrec[0]['label'] == 'a' and isinstance(vrec[0]['value'], Num)
@@ -211,7 +225,7 @@ def rule_diameter(ctx, rule='R15.s'):
             if not ok:
                 bad.append('world %s: sigma store is %s, expected sigma[t1,t2] := %s' % (
                     kind, [(r['labels'], N.show(r['value'].t) if isinstance(r['value'], Num) else r['value']) for r in srec], N.show(want)))
-        if not bool(o.attrs['sigma'].attrs['symmetric'].v):
+        if not bool(attr_or_none(ip, o, 'sigma').attrs['symmetric'].v):
             bad.append('sigma table is not symmetric')
     if set(kinds) != {'same', 'other', 'unset'}:
         bad.append('case split over the partner type incomplete: %s' % kinds)
